@@ -17,6 +17,7 @@ import (
 	"fmt"
 	"io"
 	"log"
+	"math/bits"
 	"os"
 	"path/filepath"
 	"sort"
@@ -42,8 +43,9 @@ const (
 	c19KnownFp  = "rotate-drops-fp"
 	c19KnownBuf = "write-retains-slice"
 	c19GlobMeta = "*?[\\"
-	c19GStride  = 10000 // record id = (entry point*4 + goroutine)*stride + sequence number
-	c19Keys     = 32    // 8 entry points x 4 goroutines
+	c19MaxDays  = 106751 // 24h * days still fits a time.Duration
+	c19GStride  = 10000  // record id = (entry point*4 + goroutine)*stride + sequence number
+	c19Keys     = 32     // 8 entry points x 4 goroutines
 	c19DateOnly = "2006-01-02"
 )
 
@@ -53,11 +55,24 @@ type c19Pre struct {
 	F   int `json:"f,omitempty"`   // logx modes: which of the five log files the backup belongs to
 }
 
+type c19Nb struct {
+	Days       int  `json:"days"`
+	MaxBackups int  `json:"mb,omitempty"`
+	MaxSize    int  `json:"max,omitempty"`
+	Gzip       bool `json:"gz,omitempty"`
+}
+
+// c19RealName maps the placeholder U+E0FF (cases are JSON, which cannot carry invalid UTF-8)
+// to the byte 0xFF: file names are byte strings.
+func c19RealName(s string) string { return strings.ReplaceAll(s, "\uE0FF", "\xff") }
+
 type c19Step struct {
 	Jump string `json:"j"`            // gap | mid | days
 	Ms   int64  `json:"ms,omitempty"` // gap: sleep Ms; mid: sleep to next local midnight + Ms (may be negative)
 	N    int    `json:"n,omitempty"`  // days: sleep N*24h
 	Lens []int  `json:"w,omitempty"`  // burst: record lengths, written back to back
+	Nb   int    `json:"nb,omitempty"` // direct mode: length of the record the neighbour log gets in this step (0 none)
+	Rs   bool   `json:"rs,omitempty"` // direct mode: the writer is closed and a new one opened on the same file (no records in this step)
 	Ep   []int  `json:"ep,omitempty"` // logx modes: entry point of each record (index into c19Eps), default Info
 	Pz   int64  `json:"pz,omitempty"` // logx modes: goroutine g pauses Pz*(g+1) microseconds between its records
 }
@@ -79,8 +94,17 @@ type c19Case struct {
 	// Sib: a sibling directory whose name the glob pattern made from Dir would also match; it
 	// holds files named like old backups and must never be touched. Bait: the same for Base,
 	// in the log directory itself.
-	Sib      string   `json:"sib,omitempty"`
-	Bait     string   `json:"bait,omitempty"`
+	Sib  string `json:"sib,omitempty"`
+	Bait string `json:"bait,omitempty"`
+	// Nb: a second RotateLogger alive in the same directory, with its own settings, on a file
+	// whose name extends the first one's prefix (<prefix><delim>api<ext>); the two logs are
+	// independent: each one's records, backups and retention are judged by its own model.
+	Nb *c19Nb `json:"nbr,omitempty"`
+	// Sp: how the path handed to the code is spelled: "" clean absolute; "rel" ./relative to the
+	// working directory; "dslash" dir//file; "dotmid" dir/./file; "dirdot" (logx modes) Path ends in "/."
+	Sp string `json:"sp,omitempty"`
+	// Rot: logx modes, daily rule: the Rotation string handed to Config ("", "daily", anything unknown)
+	Rot      string   `json:"rot,omitempty"`
 	PreCur   []int    `json:"precur,omitempty"`
 	Pre      []c19Pre `json:"pre,omitempty"`
 	Unrel    []string `json:"unrel,omitempty"`
@@ -162,6 +186,14 @@ func c19EpOf(id int) int {
 type c19Val struct {
 	P string `json:"p"`
 }
+
+type c19Err string
+
+func (e c19Err) Error() string { return string(e) }
+
+type c19Str string
+
+func (s c19Str) String() string { return string(s) }
 
 func c19IsVal(c *c19Case, id int) bool { return c.Val && (id%c19GStride)%3 == 0 && id < c19OldBase }
 
@@ -331,6 +363,8 @@ type c19Log struct {
 	path              string
 	l                 *RotateLogger
 	maxSize           int64
+	days, maxB        int  // retention settings of this log's rule
+	gz, comp          bool // the rule's gzip flag, the writer's compress flag
 	// held: a descriptor on the current file, kept open between two snapshots. A rotation is
 	// recognised by the path naming another file than the descriptor (the inode cannot be
 	// reused while it is open), and the content of a backup that was removed right after its
@@ -355,6 +389,7 @@ type c19Env struct {
 func (e *c19Env) addLog(base string, start time.Time) *c19Log {
 	ext := filepath.Ext(base)
 	lg := &c19Log{idx: len(e.logs), base: base, ext: ext, prefix: base[:len(base)-len(ext)], path: filepath.Join(e.dir, base),
+		days: e.c.Days, maxB: e.c.MaxBackups, gz: e.c.Gzip, comp: e.c.Compress,
 		periodLo: start, periodHi: start, loc: map[int]string{}, gone: map[int]bool{}, tolerated: map[int]bool{}}
 	e.logs = append(e.logs, lg)
 	return lg
@@ -460,6 +495,11 @@ func c19Day(t time.Time) time.Time {
 // older: the backup whose name encodes instant bt is older than `days`(+margin)
 // retention days at instant now. Daily names have day resolution.
 func (e *c19Env) older(bt, now time.Time, days int) bool {
+	if days > c19MaxDays {
+		// more than 292 years (24h*days no longer fits a time.Duration): no backup of any
+		// generated history (1707..2101) is that old
+		return false
+	}
 	if e.c.Rule == "daily" {
 		return c19Day(bt).AddDate(0, 0, days).Before(c19Day(now))
 	}
@@ -503,6 +543,14 @@ func c19Interp(t *testing.T, c c19Case) (v kit.Verdict) {
 }
 
 func c19Run(c c19Case, root string, r *c19Result) {
+	if strings.Contains(c.Base+c.Dir, "\uE0FF") {
+		r.classes["path-invalid-utf8"] = true
+	}
+	c.Base, c.Dir, c.Sib, c.Bait = c19RealName(c.Base), c19RealName(c.Dir), c19RealName(c.Sib), c19RealName(c.Bait)
+	c.Unrel = append([]string(nil), c.Unrel...)
+	for i := range c.Unrel {
+		c.Unrel[i] = c19RealName(c.Unrel[i])
+	}
 	e := &c19Env{c: c, dir: root}
 	sibDir := ""
 	switch {
@@ -546,7 +594,16 @@ func c19Run(c c19Case, root string, r *c19Result) {
 	time.Sleep(time.Duration(c.T0) * time.Second)
 	start := time.Now()
 	if c.Mode == "" {
-		e.addLog(c.Base, start)
+		lg := e.addLog(c.Base, start)
+		if c.Nb != nil {
+			nb := e.addLog(lg.prefix+c.Delim+"api"+lg.ext, start)
+			nb.days, nb.maxB, nb.gz, nb.comp = c.Nb.Days, c.Nb.MaxBackups, c.Nb.Gzip, c.Nb.Gzip
+			if nb.base == lg.base || len(nb.base) > 200 {
+				e.logs = e.logs[:1]
+			} else {
+				r.classes["neighbour-log"] = true
+			}
+		}
 	} else {
 		for _, f := range c19Files {
 			e.addLog(f, start)
@@ -576,12 +633,12 @@ func c19Run(c c19Case, root string, r *c19Result) {
 				bt = c19Day(start).AddDate(0, 0, -p.Age)
 			}
 			lg := e.logs[p.F%len(e.logs)]
-			name := e.backupName(lg, bt, c.Gzip)
+			name := e.backupName(lg, bt, lg.gz)
 			if _, dup := pre[name]; dup {
 				continue
 			}
 			b := oldRec(oldID(lg.idx), 40)
-			if c.Gzip {
+			if lg.gz {
 				b = c19Gz(b)
 			}
 			write(name, b)
@@ -646,7 +703,34 @@ func c19Run(c c19Case, root string, r *c19Result) {
 	}
 
 	// ---- the logger under test
-	filename := e.logs[0].path
+	// spell: the same file or directory, written the way a configuration might write it
+	spell := func(dir, base string) string {
+		p := dir
+		if c.Sp == "rel" {
+			if wd, err := os.Getwd(); err == nil {
+				if rel, err := filepath.Rel(wd, dir); err == nil && !strings.HasPrefix(rel, "..") {
+					p = "./" + rel
+				}
+			}
+		}
+		switch {
+		case base == "" && c.Sp == "dirdot":
+			return p + "/."
+		case base == "" && c.Sp == "dslash":
+			return p + "//"
+		case base == "":
+			return p
+		case c.Sp == "dslash":
+			return p + "//" + base
+		case c.Sp == "dotmid", c.Sp == "dirdot":
+			return p + "/./" + base
+		}
+		return p + "/" + base
+	}
+	if c.Sp != "" {
+		r.classes["unclean-path-"+c.Sp] = true
+	}
+	filename := spell(e.dir, e.logs[0].base)
 	var rule RotateRule
 	maxSize := int64(c.MaxSize)
 	if c.Rule == "daily" {
@@ -678,7 +762,10 @@ func c19Run(c c19Case, root string, r *c19Result) {
 			atomic.StoreUint32(&encoding, savedEnc)
 			atomic.StoreUint32(&logLevel, savedLvl)
 		}()
-		conf := Config{Mode: fileMode, Path: e.dir, Compress: c.Gzip, KeepDays: c.Days}
+		conf := Config{Mode: fileMode, Path: spell(e.dir, ""), Compress: c.Gzip, KeepDays: c.Days, Rotation: c.Rot}
+		if c.Rot != "" {
+			r.classes["rotation-string-"+c.Rot] = true
+		}
 		if c.Rule == "size" {
 			conf.Rotation, conf.MaxSize, conf.MaxBackups = sizeRotationRule, 1, c.MaxBackups
 		}
@@ -729,6 +816,43 @@ func c19Run(c c19Case, root string, r *c19Result) {
 		failf("NewLogger: %v", err)
 		return
 	}
+	// reopen: what a restarted process does: a new rule and a new writer on the same file
+	reopen := func() (*RotateLogger, error) {
+		var ru RotateRule
+		if c.Rule == "daily" {
+			ru = DefaultRotateRule(filename, c.Delim, c.Days, c.Gzip)
+		} else {
+			ru = NewSizeLimitRotateRule(filename, c.Delim, c.Days, 1, c.MaxBackups, c.Gzip)
+			if c.MaxSize > 0 {
+				ru.(*SizeLimitRotateRule).maxSize = maxSize
+			}
+		}
+		return NewLogger(filename, ru, c.Compress)
+	}
+	var nbl *RotateLogger
+	if c.Mode == "" && len(e.logs) > 1 {
+		nb := e.logs[1]
+		var ru RotateRule
+		if c.Rule == "daily" {
+			ru = DefaultRotateRule(nb.path, c.Delim, nb.days, nb.gz)
+		} else {
+			ru = NewSizeLimitRotateRule(nb.path, c.Delim, nb.days, 1, nb.maxB, nb.gz)
+			ru.(*SizeLimitRotateRule).maxSize = int64(c.Nb.MaxSize)
+		}
+		if nbl, err = NewLogger(nb.path, ru, nb.comp); err != nil {
+			failf("NewLogger (neighbour): %v", err)
+			return
+		}
+		nb.l = nbl
+		main := closeAll
+		closeAll = func() error {
+			err := main()
+			if e2 := nbl.Close(); err == nil {
+				err = e2
+			}
+			return err
+		}
+	}
 	closed := false
 	defer func() {
 		if !closed {
@@ -741,6 +865,9 @@ func c19Run(c c19Case, root string, r *c19Result) {
 		if lg.l == nil {
 			lg.l = l
 		}
+	}
+	if nbl != nil {
+		e.logs[1].maxSize = int64(c.Nb.MaxSize)
 	}
 	defer func() {
 		for _, lg := range e.logs {
@@ -769,6 +896,9 @@ func c19Run(c c19Case, root string, r *c19Result) {
 	// logOf: the log a record belongs to, by the entry point it was logged through
 	logOf := func(id int) *c19Log {
 		if c.Mode == "" {
+			if id/c19GStride == c19Keys-1 && len(e.logs) > 1 {
+				return e.logs[1]
+			}
 			return e.logs[0]
 		}
 		return e.logs[c19Eps[c19EpOf(id)].file]
@@ -901,27 +1031,27 @@ func c19Run(c c19Case, root string, r *c19Result) {
 			bornOutdated := false
 			if rotated {
 				for _, expT := range expTs {
-					n := e.backupName(lg, expT, c.Compress)
+					n := e.backupName(lg, expT, lg.comp)
 					if !seen[n] {
 						times = append(times, expT)
 					}
-					if cur[n] == nil && c.Days > 0 && e.older(expT, now, c.Days) {
+					if cur[n] == nil && lg.days > 0 && e.older(expT, now, lg.days) {
 						bornOutdated = true
 					}
 				}
 			}
 			justified := func(bt time.Time) bool {
-				if c.Days > 0 && e.older(bt, now, c.Days) {
+				if lg.days > 0 && e.older(bt, now, lg.days) {
 					return true
 				}
-				if c.Rule == "size" && c.MaxBackups > 0 {
+				if c.Rule == "size" && lg.maxB > 0 {
 					newer := 0
 					for _, x := range times {
 						if x.After(bt) {
 							newer++
 						}
 					}
-					if newer >= c.MaxBackups {
+					if newer >= lg.maxB {
 						return true
 					}
 				}
@@ -934,11 +1064,11 @@ func c19Run(c c19Case, root string, r *c19Result) {
 				}
 				if !justified(pf.t) && retentionJudged {
 					if !retFail("%s: backup %s was removed although it is neither older than %d day(s) at %s nor beyond the %d newest backups",
-						what, name, c.Days, now.Format(time.RFC3339), c.MaxBackups) {
+						what, name, lg.days, now.Format(time.RFC3339), lg.maxB) {
 						return false
 					}
 				}
-				if c.Days > 0 && e.older(pf.t, now, c.Days) {
+				if lg.days > 0 && e.older(pf.t, now, lg.days) {
 					r.classes["removed-by-age"] = true
 				} else {
 					r.classes["removed-by-count"] = true
@@ -1063,32 +1193,43 @@ func c19Run(c c19Case, root string, r *c19Result) {
 				return false
 			}
 			// (g) after a rotation's clean-up nothing clearly outdated is left (1 day of margin)
-			if rotated && coherent && retentionJudged {
+			if rotated && lg.gz == lg.comp && retentionJudged && c.Sp != "" {
+				// Completeness of the clean-up is the DESIGN oracle's addition, not a clause of the
+				// statement; for unclean spellings of the path it is only counted, not asserted
+				// (daily rule: a glob meta-character in the directory plus "//" or "/./" makes
+				// filepath.Glob match nothing, so nothing is ever cleaned; reported as an observation).
+				for _, f := range cur {
+					if f.kind == c19Backup && f.lg == lg.idx && f.gz == lg.comp && lg.days > 0 && e.older(f.t, now, lg.days+1) {
+						r.classes["unclean-path-cleanup-incomplete"] = true
+					}
+				}
+			}
+			if rotated && lg.gz == lg.comp && retentionJudged && c.Sp == "" {
 				n := 0
 				for _, f := range cur {
-					if f.kind != c19Backup || f.lg != lg.idx || f.gz != c.Compress {
+					if f.kind != c19Backup || f.lg != lg.idx || f.gz != lg.comp {
 						continue
 					}
 					n++
-					if c.Days > 0 && !e.older(f.t, now, c.Days) {
-						edge := f.t.Add(time.Duration(c.Days) * 24 * time.Hour)
+					if lg.days > 0 && !e.older(f.t, now, lg.days) {
+						edge := f.t.Add(time.Duration(lg.days) * 24 * time.Hour)
 						if c.Rule == "daily" {
-							edge = c19Day(f.t).AddDate(0, 0, c.Days)
+							edge = c19Day(f.t).AddDate(0, 0, lg.days)
 						}
 						if (c.Rule == "daily" && edge.Equal(c19Day(now))) || (c.Rule == "size" && edge.Equal(now.Truncate(time.Second))) {
 							r.classes["kept-exactly-at-retention-boundary"] = true
 						}
 					}
-					if c.Days > 0 && e.older(f.t, now, c.Days+1) {
+					if lg.days > 0 && e.older(f.t, now, lg.days+1) {
 						if !retFail("%s: backup %s is more than a day older than the %d retention day(s) at %s and survived the clean-up",
-							what, f.name, c.Days, now.Format(time.RFC3339)) {
+							what, f.name, lg.days, now.Format(time.RFC3339)) {
 							return false
 						}
 						break
 					}
 				}
-				if retentionJudged && c.Rule == "size" && c.MaxBackups > 0 && n > c.MaxBackups {
-					if !retFail("%s: %d backups of %s left after the clean-up, maximum is %d", what, n, lg.base, c.MaxBackups) {
+				if retentionJudged && c.Rule == "size" && lg.maxB > 0 && n > lg.maxB {
+					if !retFail("%s: %d backups of %s left after the clean-up, maximum is %d", what, n, lg.base, lg.maxB) {
 						return false
 					}
 				}
@@ -1129,12 +1270,40 @@ func c19Run(c c19Case, root string, r *c19Result) {
 			r.classes["midnight-jump"] = true
 		case "days":
 			time.Sleep(time.Duration(st.N) * 24 * time.Hour)
+			if st.N >= 30 {
+				r.classes["jump>=30d"] = true
+			}
+		case "ns":
+			time.Sleep(time.Duration(st.N))
+		}
+		if st.Rs && c.Mode == "" && !c.Via {
+			kit.Wait()
+			if err := l.Close(); err != nil {
+				failf("step %d: Close before the restart: %v", i, err)
+				return
+			}
+			kit.Wait()
+			nl, err := reopen()
+			if err != nil {
+				failf("step %d: NewLogger on the existing file: %v", i, err)
+				return
+			}
+			l = nl
+			e.logs[0].l = nl
+			// the new writer names the next backup after its own start
+			e.logs[0].periodLo, e.logs[0].periodHi = time.Now(), time.Now()
+			r.classes["restart-mid-history"] = true
 		}
 		first := count[0] + 1
 		stepStart = time.Now()
 		if c.Mode == "" {
 			var shared []byte
 			for k, n := range st.Lens {
+				if n == 0 { // a legal io.Writer call that carries nothing
+					l.Write([]byte{}) // what it returns is not specified; it must not disturb anything
+					r.classes["empty-write"] = true
+					continue
+				}
 				id := count[0] + 1
 				rec := c19Rec(id, n)
 				if c.Buf == "reuse" {
@@ -1169,6 +1338,14 @@ func c19Run(c c19Case, root string, r *c19Result) {
 					kit.Wait()
 				}
 			}
+			if st.Nb > 0 && nbl != nil {
+				key := c19Keys - 1
+				count[key]++
+				if w, err := nbl.Write(c19Rec(key*c19GStride+count[key], st.Nb)); err != nil || w != st.Nb {
+					failf("step %d: Write to the neighbour log returned (%d, %v)", i, w, err)
+					return
+				}
+			}
 		} else {
 			g := c.G
 			if g < 1 {
@@ -1192,9 +1369,21 @@ func c19Run(c c19Case, root string, r *c19Result) {
 				go func(gi int, list []emit, pz int64) {
 					defer wg.Done()
 					for _, em := range list {
-						var v any = c19Payload(em.id, em.n)
-						if c19IsVal(&c, em.id) {
-							v = c19Val{P: c19Payload(em.id, em.n)}
+						// the forms an `any` value takes: string / error / Stringer give the same line,
+						// struct / pointer / map (uncomparable) give the same JSON object
+						pl := c19Payload(em.id, em.n)
+						var v any = pl
+						switch form := em.id % 3; {
+						case c19IsVal(&c, em.id) && form == 0:
+							v = c19Val{P: pl}
+						case c19IsVal(&c, em.id) && form == 1:
+							v = &c19Val{P: pl}
+						case c19IsVal(&c, em.id):
+							v = map[string]any{"p": pl}
+						case c.Val && form == 1:
+							v = c19Err(pl)
+						case c.Val && form == 2:
+							v = c19Str(pl)
 						}
 						switch em.ep {
 						case 0:
@@ -1228,6 +1417,9 @@ func c19Run(c c19Case, root string, r *c19Result) {
 		if len(st.Lens) > bufferSize {
 			r.classes["burst-fills-channel"] = true
 		}
+		if len(st.Lens) >= bufferSize-1 && len(st.Lens) <= bufferSize+1 {
+			r.classes["burst=channel-capacity+-1"] = true
+		}
 		kit.Wait()
 		before := r.rotations
 		if !check(fmt.Sprintf("step %d (%s, %d records, first direct id %d)", i, time.Now().Format(time.RFC3339), len(st.Lens), first)) {
@@ -1253,6 +1445,20 @@ func c19Run(c c19Case, root string, r *c19Result) {
 	}
 	if r.rotations > before {
 		failf("Close changed the set of files")
+		return
+	}
+	// the other forms of the API: Write after Close (not accepted, or never processed: outside
+	// the statement) and a second Close must neither panic nor hang nor disturb the files
+	if c.Mode == "" {
+		l.Write(c19Rec(c19OldBase-1, 20))
+		l.Close()
+	} else {
+		cw.Info(c19Payload(c19OldBase-1, 20))
+		cw.Close()
+	}
+	kit.Wait()
+	if !check("after Write-after-Close and a second Close") {
+		return
 	}
 	switch {
 	case r.rotations == 0:
@@ -1268,6 +1474,20 @@ func c19Run(c c19Case, root string, r *c19Result) {
 		r.classes["compress"] = true
 	}
 	r.classes["rule-"+c.Rule] = true
+	if c.Days >= 30 {
+		r.classes["days>=30"] = true
+	}
+	if c.Days > 100000 {
+		r.classes["days>100000"] = true
+	}
+	if c.MaxBackups >= 100 {
+		r.classes["maxBackups>=100"] = true
+	}
+	switch c.Delim {
+	case "-", ".", "_":
+	default:
+		r.classes["odd-delimiter"] = true
+	}
 	if c.Buf != "" {
 		r.classes["buffer-"+c.Buf] = true
 	}
@@ -1330,7 +1550,7 @@ var c19NamePieces = []string{"a", "b", "log", "svc", "x1", "%s", "%d", "%20", "%
 	"\\", "\\Z", "'", "\"", "-", ".", "_", "é", "日本", "😀", "~", "&", "(", ")", ";", ":", "=", "+", ","}
 
 var c19NameCurated = []string{"order%20service", "100%", "%s%d", "a b", "#1", "a*b", "q?", "a[1]", "[", "a]b", "{x}", "$HOME", "back\\Slash",
-	"it's", "\"q\"", "-rf", ".hidden", "trail.", "日本語", "naïve", "%!s(MISSING)", "a%", "*", "?x", "[a-z]og"}
+	"it's", "\"q\"", "-rf", ".hidden", "trail.", "日本語", "naïve", "%!s(MISSING)", "a%", "*", "?x", "[a-z]og", "bad\uE0FFutf8", "\uE0FF"}
 
 // c19NameGen draws one path component: anything but '/', NUL, "", "." and "..", at most 200 bytes.
 func c19NameGen(rt *rapid.T, label string) string {
@@ -1377,12 +1597,19 @@ func c19GenWith(rt *rapid.T, logx bool) c19Case {
 	}
 	c.Rule = rapid.SampledFrom([]string{"daily", "size", "size"}).Draw(rt, "rule")
 	c.Days = rapid.IntRange(0, 5).Draw(rt, "days")
+	if d := rapid.IntRange(0, 99).Draw(rt, "daysMagnitude"); d >= 50 && d < 62 {
+		// scale-free: a month, a year, a century, the largest value whose duration fits int64 and beyond
+		c.Days = rapid.SampledFrom([]int{30, 365, 36500, 106751, 106752, 1000000, 1<<31 - 1}).Draw(rt, "daysBig")
+	}
 	c.Gzip = rapid.Bool().Draw(rt, "gzip")
 	c.Compress = c.Gzip
 	if rapid.IntRange(0, 9).Draw(rt, "flagsDiffer") == 0 {
 		c.Compress = !c.Gzip
 	}
 	c.Delim = rapid.SampledFrom([]string{"-", ".", "_"}).Draw(rt, "delim")
+	if d := rapid.IntRange(0, 99).Draw(rt, "oddDelim"); d >= 50 && d < 62 && !logx {
+		c.Delim = rapid.SampledFrom([]string{"--", "%s", "%", "*", "[", "#", " ", "é", "\\", "-backup-"}).Draw(rt, "delimOdd")
+	}
 	c.Base = rapid.SampledFrom([]string{"access.log", "svc", "a.b.log"}).Draw(rt, "base")
 	if !logx && rapid.Bool().Draw(rt, "oddBase") {
 		c.Base = c19NameGen(rt, "base")
@@ -1396,6 +1623,9 @@ func c19GenWith(rt *rapid.T, logx bool) c19Case {
 		c.Sib = c19Witness(c.Dir)
 	}
 	c.T0 = rapid.SampledFrom([]int64{0, 0, 1, 3600, 43200, 86398, 86399}).Draw(rt, "t0")
+	if d := rapid.IntRange(0, 99).Draw(rt, "spelling"); d >= 50 && d < 75 {
+		c.Sp = rapid.SampledFrom([]string{"rel", "dslash", "dotmid", "dirdot"}).Draw(rt, "sp")
+	}
 	c.StepWait = rapid.Bool().Draw(rt, "stepWait")
 	if logx { // newFileWriter fixes these
 		c.Compress, c.Delim, c.Base = c.Gzip, backupFileDelimiter, accessFilename
@@ -1407,6 +1637,9 @@ func c19GenWith(rt *rapid.T, logx bool) c19Case {
 	big := false
 	if c.Rule == "size" {
 		c.MaxBackups = rapid.IntRange(0, 4).Draw(rt, "maxBackups")
+		if d := rapid.IntRange(0, 99).Draw(rt, "mbMagnitude"); d >= 50 && d < 58 {
+			c.MaxBackups = rapid.SampledFrom([]int{100, 65536, 1<<31 - 1}).Draw(rt, "mbBig")
+		}
 		bigOdds := 8 // per mille
 		if kit.Thorough() {
 			bigOdds = 30
@@ -1427,7 +1660,7 @@ func c19GenWith(rt *rapid.T, logx bool) c19Case {
 		p := c19Pre{Age: rapid.IntRange(1, 10).Draw(rt, "age")}
 		if c.Rule == "size" {
 			p.Sec = rapid.IntRange(-3, 6).Draw(rt, "sec")
-			if rapid.IntRange(0, 3).Draw(rt, "nearDays") == 0 && c.Days > 0 {
+			if rapid.IntRange(0, 3).Draw(rt, "nearDays") == 0 && c.Days > 0 && c.Days <= 36500 {
 				p.Age = c.Days // around the retention boundary at the first rotations
 			}
 		}
@@ -1455,6 +1688,21 @@ func c19GenWith(rt *rapid.T, logx bool) c19Case {
 			c.Pre[i].F = rapid.IntRange(0, len(c19Files)-1).Draw(rt, "preFile")
 		}
 	}
+	if logx && c.Rule == "daily" {
+		c.Rot = rapid.SampledFrom([]string{"", "", "daily", "weekly"}).Draw(rt, "rotation")
+	}
+	if d := rapid.IntRange(0, 99).Draw(rt, "neighbour"); !logx && d >= 50 && d < 70 {
+		c.Nb = &c19Nb{Days: rapid.IntRange(0, 5).Draw(rt, "nbDays"), Gzip: rapid.Bool().Draw(rt, "nbGzip")}
+		if c.Rule == "size" {
+			c.Nb.MaxBackups = rapid.IntRange(0, 4).Draw(rt, "nbMaxBackups")
+			c.Nb.MaxSize = rapid.IntRange(64, 512).Draw(rt, "nbMaxSize")
+		}
+		for i := range c.Pre {
+			c.Pre[i].F = rapid.IntRange(0, 1).Draw(rt, "preFile")
+		}
+	}
+	restarts := !logx && !c.Via && rapid.IntRange(0, 3).Draw(rt, "restarts") == 0
+	century := false
 	nsteps := rapid.IntRange(1, 24).Draw(rt, "nsteps")
 	if big && nsteps > 10 {
 		nsteps = 10
@@ -1485,12 +1733,24 @@ func c19GenWith(rt *rapid.T, logx bool) c19Case {
 			default:
 				st.Jump, st.Ms = "gap", rapid.Int64Range(0, 30*3600_000).Draw(rt, "ms")
 			}
+			switch d := rapid.IntRange(0, 99).Draw(rt, "jumpMagnitude"); {
+			case d >= 50 && d < 53:
+				st.Jump, st.N, st.Ms = "ns", 1, 0
+			case d >= 53 && d < 56:
+				st.Jump, st.N, st.Ms = "days", 30, 0
+			case d >= 56 && d < 58 && !century:
+				st.Jump, st.N, st.Ms, century = "days", 36500, 0, true
+			}
 			nrec := rapid.IntRange(0, 4).Draw(rt, "nrec")
 			if i == floodAt {
-				nrec = rapid.IntRange(bufferSize+1, bufferSize+40).Draw(rt, "nflood")
+				nrec = rapid.SampledFrom([]int{bufferSize - 1, bufferSize, bufferSize + 1, bufferSize + 2, bufferSize + 40}).Draw(rt, "nflood")
 			}
 			for k := 0; k < nrec; k++ {
-				st.Lens = append(st.Lens, rapid.IntRange(c19MinLen, 200).Draw(rt, "len"))
+				n := rapid.IntRange(c19MinLen, 200).Draw(rt, "len")
+				if !logx && rapid.IntRange(0, 39).Draw(rt, "empty") == 20 {
+					n = 0 // an empty Write
+				}
+				st.Lens = append(st.Lens, n)
 			}
 		} else {
 			// size-triggered rotations at least a second apart (statement): at least 1 s
@@ -1506,6 +1766,12 @@ func c19GenWith(rt *rapid.T, logx bool) c19Case {
 				st.Jump, st.N = "days", rapid.IntRange(1, 3).Draw(rt, "n")
 			default:
 				st.Jump, st.Ms = "mid", rapid.SampledFrom([]int64{1000, 1001, 5000}).Draw(rt, "off")
+			}
+			switch d := rapid.IntRange(0, 99).Draw(rt, "jumpMagnitude"); {
+			case d >= 53 && d < 56:
+				st.Jump, st.N, st.Ms = "days", 30, 0
+			case d >= 56 && d < 58 && !century:
+				st.Jump, st.N, st.Ms, century = "days", 36500, 0, true
 			}
 			nrec := rapid.IntRange(1, 5).Draw(rt, "nrec")
 			total := 0
@@ -1541,6 +1807,12 @@ func c19GenWith(rt *rapid.T, logx bool) c19Case {
 				}
 			}
 		}
+		if c.Nb != nil && rapid.Bool().Draw(rt, "nbWrites") {
+			st.Nb = rapid.IntRange(c19MinLen, 200).Draw(rt, "nbLen")
+		}
+		if restarts && i > 0 && rapid.IntRange(0, 5).Draw(rt, "restartHere") == 0 {
+			st.Rs, st.Lens, st.Nb = true, nil, 0
+		}
 		if logx {
 			st.Pz = rapid.SampledFrom([]int64{0, 0, 1, 50, 1000, 20000}).Draw(rt, "pause")
 			for range st.Lens {
@@ -1550,6 +1822,72 @@ func c19GenWith(rt *rapid.T, logx bool) c19Case {
 		c.Steps = append(c.Steps, st)
 	}
 	return c
+}
+
+// c19GenLong: one writer living through hundreds to thousands of single-record steps and
+// rotations (long-lived instance), with limits at the usual buffer-size boundaries.
+func c19GenLong(rt *rapid.T) c19Case {
+	c := c19Case{Base: "access.log", Delim: "-"}
+	c.Rule = rapid.SampledFrom([]string{"size", "size", "daily"}).Draw(rt, "rule")
+	c.Days = rapid.IntRange(0, 3).Draw(rt, "days")
+	c.Gzip = rapid.Bool().Draw(rt, "gzip")
+	c.Compress = c.Gzip
+	c.StepWait = rapid.Bool().Draw(rt, "stepWait")
+	c.Buf = rapid.SampledFrom([]string{"", "reuse"}).Draw(rt, "buf")
+	nsteps := rapid.IntRange(300, 1500).Draw(rt, "nsteps")
+	if c.Rule == "daily" {
+		for i := 0; i < nsteps; i++ {
+			st := c19Step{Jump: "days", N: 1, Lens: []int{rapid.IntRange(c19MinLen, 40).Draw(rt, "len")}}
+			if rapid.IntRange(0, 3).Draw(rt, "sameDay") == 0 {
+				st.Jump, st.N, st.Ms = "gap", 0, 1000
+			}
+			c.Steps = append(c.Steps, st)
+		}
+		return c
+	}
+	c.MaxBackups = rapid.IntRange(0, 3).Draw(rt, "maxBackups")
+	if c.MaxBackups == 0 && c.Days == 0 {
+		c.MaxBackups = 2 // keep the directory small
+	}
+	c.MaxSize = rapid.SampledFrom([]int{64, 100, 255, 256, 257, 4095, 4096, 4097, 32767, 32768, 32769, 65535, 65536, 65537}).Draw(rt, "maxSize")
+	if c.MaxSize >= 32767 && nsteps > 150 {
+		nsteps = 150
+	} else if c.MaxSize >= 4095 && nsteps > 600 {
+		nsteps = 600
+	}
+	cur := 0
+	for i := 0; i < nsteps; i++ {
+		var n int
+		switch rapid.IntRange(0, 5).Draw(rt, "lenKind") {
+		case 0: // fills the file exactly, or misses by one
+			n = c.MaxSize - cur + rapid.IntRange(-1, 1).Draw(rt, "d")
+		case 1:
+			n = c.MaxSize + rapid.IntRange(-1, 1).Draw(rt, "whole")
+		default:
+			n = c.MaxSize/4 + rapid.IntRange(0, c.MaxSize/4).Draw(rt, "len")
+		}
+		if n < c19MinLen {
+			n = c19MinLen
+		}
+		if cur+n > c.MaxSize {
+			cur = 0
+		}
+		cur += n
+		c.Steps = append(c.Steps, c19Step{Jump: "gap", Ms: 1000, Lens: []int{n}})
+	}
+	return c
+}
+
+func TestVerif_C19_long(t *testing.T) {
+	kit.Run(t, "C19", "long-history", kit.Opts{Quick: 10, Thorough: 320}, c19GenLong,
+		func(c c19Case) kit.Verdict {
+			v := c19Interp(t, c)
+			v.Classes = append(v.Classes, fmt.Sprintf("steps>=%d", len(c.Steps)/500*500))
+			if c.MaxSize >= 255 {
+				v.Classes = append(v.Classes, fmt.Sprintf("limit~2^%d", bits.Len(uint(c.MaxSize+1))-1))
+			}
+			return v
+		})
 }
 
 func TestVerif_C19_logx(t *testing.T) {
